@@ -4,6 +4,7 @@ package props
 
 import (
 	"bytes"
+	"compress/gzip"
 	"encoding/base64"
 	"encoding/json"
 	"fmt"
@@ -153,6 +154,16 @@ func c06PNG(rng *core.RNG, profile []byte, nameLen, level int, placement string,
 			cut = len(stream) - 1
 		}
 		icc.RawStream, icc.State = append([]byte{}, stream[:cut]...), "damaged"
+	case "raw-deflate": // the zlib wrapper (2-byte header, Adler-32) stripped: a bare deflate stream is not what iCCP holds
+		if len(stream) > 6 {
+			icc.RawStream, icc.State = append([]byte{}, stream[2:len(stream)-4]...), "damaged"
+		}
+	case "gzip-stream":
+		var gz bytes.Buffer
+		zw := gzip.NewWriter(&gz)
+		_, _ = zw.Write(profile)
+		_ = zw.Close()
+		icc.RawStream, icc.State = gz.Bytes(), "damaged"
 	case "empty-stream": // the limit of truncation: name, terminator, method, and no compressed byte at all
 		icc.RawStream, icc.State = []byte{}, "damaged"
 	case "one-byte-stream":
@@ -391,7 +402,7 @@ func c06Files(seed int64, thorough bool) []func() (c06File, bool) {
 				}
 			}
 			if n <= 1<<20 {
-				for _, dmg := range []string{"bad-zlib-header", "truncated", "bad-adler", "empty-stream", "one-byte-stream"} {
+				for _, dmg := range []string{"bad-zlib-header", "truncated", "bad-adler", "empty-stream", "one-byte-stream", "raw-deflate", "gzip-stream"} {
 					dmg := dmg
 					add(func(r *core.RNG) (c06File, bool) {
 						return c06PNG(r, profileBytes(r, n, kind), 5, r.Range(0, 9), "after-IHDR", dmg), true
